@@ -484,14 +484,14 @@ func c04ops(t *tree.Tree, st *c04state) []c04op {
 		for i := 0; i < n; i++ {
 			if n-1 >= 3 {
 				nm := st.names[i]
-				add("removetips:"+nm, false, false, same(func() error { return t.RemoveTips(false, nm) }))
+				add("removetips:"+nm, true, false, same(func() error { return t.RemoveTips(false, nm) }))
 			}
 		}
 		for i := 0; i < n; i++ {
 			for j := i + 1; j < n; j++ {
 				if n-2 >= 3 {
 					a, b := st.names[i], st.names[j]
-					add("removetips:"+a+","+b, false, false, same(func() error { return t.RemoveTips(false, a, b) }))
+					add("removetips:"+a+","+b, true, false, same(func() error { return t.RemoveTips(false, a, b) }))
 				}
 			}
 		}
@@ -500,7 +500,7 @@ func c04ops(t *tree.Tree, st *c04state) []c04op {
 				for j := i + 1; j < n; j++ {
 					for k := j + 1; k < n; k++ {
 						a, b, c := st.names[i], st.names[j], st.names[k]
-						add("keeptips:"+a+","+b+","+c, false, false, same(func() error { return t.RemoveTips(true, a, b, c) }))
+						add("keeptips:"+a+","+b+","+c, true, false, same(func() error { return t.RemoveTips(true, a, b, c) }))
 					}
 				}
 			}
